@@ -263,6 +263,7 @@ class Root:
     def __init__(self, name, n, item, kind=None, masked=None):
         self.id = next(_ids)
         self.aid = z3.IntVal(self.id)
+        self.maid = z3.IntVal(next(_ids))
         self.name, self.n, self.item = name, n, item
         self.kind = kind if kind is not None else fint("dtype_kind_" + name)
         self.masked = masked if masked is not None else z3.BoolVal(False)
@@ -330,6 +331,10 @@ class Arr:
     def item(self):
         return z3.IntVal(1) if self.role == "mask" else self.root.item
 
+    def cid(self):
+        """identity of the CONTENT: the data and the _mask of a nullable array are two arrays"""
+        return self.root.maid if self.role == "mask" else self.root.aid
+
     def nbytes(self):
         return z3.simplify(self.n * self.item())
 
@@ -364,8 +369,11 @@ class Arr:
             src = ast.unparse(node.args[0]) if node.args else ""
             if isinstance(t, Str) and t.s == "uint8":
                 return [(p, Custom(self._like(view="bytes")))]
-            if src == "np.bool_" and (self.role == "mask" or True):
-                return [(p, Custom(self._like()))]
+            if src == "np.bool_":
+                m = p.ghost.get(("asmask", self.root.id, self.role))
+                if m is None:
+                    raise Unsupported("view(np.bool_) of an array that is not known to hold 0/1")
+                return [(p, Custom(m))]
             raise Unsupported("ndarray.view(" + src + ")")
         if name == "copy":
             raise Unsupported("ndarray.copy")
@@ -414,7 +422,7 @@ class CmpMask:
         self.arr, self.op, self.val = arr, op, val
 
     def count(self):
-        c = CNT(self.arr.root.aid, self.val)
+        c = CNT(self.arr.cid(), self.val)
         return c if self.op == "==" else self.arr.n - c
 
     def alen(self):
@@ -435,7 +443,7 @@ class CmpMask:
         if name == "sum" and not args:
             whole = z3.And(self.arr.off == 0, self.arr.n == self.arr.root.n)
             eng.oblige(p, f"{eng.cur_func}.count_over_whole_level_array@L{node.lineno}", "safety", whole, node)
-            c = CNT(self.arr.root.aid, self.val)
+            c = CNT(self.arr.cid(), self.val)
             p.pc += [c >= 0, c <= self.arr.root.n]
             return [(p, PyI(self.count()))]
         if name == "any" and not args:
@@ -536,7 +544,7 @@ def store(eng, p, tgt, sel, v, node):
             emit(bad, kind="numpy_raise", why="boolean index did not match the indexed array", line=node.lineno)
             outs.append(raise_path(bad, "IndexError", node))
         p.pc.append(m.alen() == tgt.n)
-        c = CNT(m.arr.root.aid, m.val)
+        c = CNT(m.arr.cid(), m.val)
         p.pc += [c >= 0, c <= m.arr.root.n]
         cnt = m.count()
     else:
@@ -580,6 +588,9 @@ class DictVal:
 
 
 # ---- records (thrift structures, schema helper) --------------------------------------------------------------------------------
+_RECS = {}
+
+
 class Rec:
     """struct with named fields (values given at construction; assignments are kept per path)"""
     tracked = False
@@ -587,6 +598,7 @@ class Rec:
     def __init__(self, name, fields):
         self.name, self.fields = name, dict(fields)
         self.id = next(_ids)
+        _RECS[self.id] = self
 
     def attr(self, eng, p, name):
         k = ("recset", self.id, name)
@@ -728,6 +740,14 @@ class PEngine(Engine):
             return out
         return super().e_UnaryOp(e, p)
 
+    def load_sub(self, o, i, p, node):
+        if isinstance(o, Opaque):
+            key = ("item", o.tag, str(i.s if isinstance(i, Str) else i.z if isinstance(i, (PyI, PyB)) else getattr(i, "tag", id(i))))
+            if key not in p.opq:
+                p.opq[key] = Opaque((o.tag, "[]", key[2]))
+            return p.opq[key]
+        return super().load_sub(o, i, p, node)
+
     def identical(self, a, b, p):
         if is_ellipsis(a) or is_ellipsis(b):
             return z3.BoolVal(is_ellipsis(a) and is_ellipsis(b))
@@ -803,6 +823,22 @@ class PEngine(Engine):
             return [p]
         return [q for q, _ in self.ev(st.value, p)]
 
+    merge = True
+
+    def block(self, stmts, paths):
+        live = paths
+        for st in stmts:
+            nxt = []
+            for q in live:
+                if q.ctl is not None:
+                    nxt.append(q)
+                else:
+                    nxt += self.stmt(st, q)
+            if self.merge and sum(1 for q in nxt if q.ctl is None) > 1:
+                nxt = merge_paths([q for q in nxt if q.ctl is None]) + [q for q in nxt if q.ctl is not None]
+            live = nxt
+        return live
+
     def e_Call(self, e, p):
         if p.ctl is not None:
             return [(p, Opaque("dead"))]
@@ -828,17 +864,22 @@ class PEngine(Engine):
                 continue
             if selfobj is not None:
                 args = [selfobj] + args
-            if name in self.handlers:
+            lv = q.env.get(name)
+            if isinstance(lv, Opaque) and isinstance(lv.tag, tuple) and lv.tag[:2] == ("global:decom_into", "[]") and "decom_into()" in self.handlers:
+                out += self.handlers["decom_into()"](self, q, [lv] + args, kw, e)
+            elif name in self.handlers:
                 out += self.handlers[name](self, q, args, kw, e)
             elif name in self.funcs and (name in self.inline or "*" in self.inline):
                 self.inlined.add(name)
+                got = []
                 for r in self.run(name, q, args, kw):
                     if r.ctl[0] == "ret":
                         v = r.ctl[1]
                         r.ctl = None
-                        out.append((r, v))
+                        got.append((r, v))
                     else:
-                        out.append((r, Opaque("raised")))
+                        got.append((r, Opaque("raised")))
+                out += merge_results(got) if self.merge else got
             else:
                 from vc.symexec import BUILTINS
                 if name in BUILTINS:
@@ -849,6 +890,184 @@ class PEngine(Engine):
                 else:
                     raise Unsupported(f"call {name} in {self.cur_func} L{e.lineno}")
         return out
+
+
+# ---- path merging (joins of `if` statements and of inlined calls) -----------------------------------------------------------------
+def same_value(a, b):
+    if a is b:
+        return True
+    if type(a) is not type(b):
+        return False
+    if isinstance(a, (PyI, PyB)):
+        return a.z.eq(b.z)
+    if isinstance(a, Str):
+        return a.s == b.s
+    if isinstance(a, NoneV):
+        return True
+    if isinstance(a, Opaque):
+        return a.tag == b.tag
+    if isinstance(a, Custom):
+        return a.h is b.h
+    if isinstance(a, Opt):
+        return a.isnone.eq(b.isnone) and same_value(a.val, b.val)
+    if isinstance(a, Tup):
+        return len(a.items) == len(b.items) and a.is_list == b.is_list and all(same_value(x, y) for x, y in zip(a.items, b.items))
+    return False
+
+
+def _sig(v):
+    if isinstance(v, list):
+        return tuple(_sig(x) for x in v)
+    if isinstance(v, tuple):
+        return tuple(_sig(x) for x in v)
+    if isinstance(v, dict):
+        return ("d", id(v))
+    if z3.is_expr(v):
+        return ("z", v.get_id())
+    if isinstance(v, (PyI, PyB)):
+        return ("z", v.z.get_id())
+    if isinstance(v, Custom):
+        return ("c", id(v.h))
+    if isinstance(v, Opaque):
+        return ("o", str(v.tag))
+    if isinstance(v, Str):
+        return ("s", v.s)
+    if isinstance(v, NoneV):
+        return ("n",)
+    if isinstance(v, Opt):
+        return ("opt", v.isnone.get_id(), _sig(v.val))
+    if isinstance(v, Tup):
+        return ("t", tuple(_sig(x) for x in v.items))
+    return ("id", id(v))
+
+
+def _is_recset(k):
+    return isinstance(k, tuple) and len(k) == 3 and k[0] == "recset"
+
+
+def ghost_sig(q):
+    return tuple(sorted(((str(k), _sig(v)) for k, v in q.ghost.items() if not (isinstance(k, str) and k.startswith("locals:"))
+                         and not _is_recset(k)), key=lambda kv: kv[0]))
+
+
+class Choice:
+    """scalar whose value depends on the path taken before a join: [(condition, value)]"""
+    tracked = False
+
+    def __init__(self, alts):
+        self.alts = alts
+
+
+def _scalar_marker(v):
+    return isinstance(v, (Opaque, NoneV)) or (isinstance(v, Custom) and isinstance(v.h, Choice))
+
+
+def merge_val(x, y, cx):
+    """value of a variable after the join: exact for ints / bools / optional ints (if-then-else on the path condition of the first path)"""
+    if same_value(x, y):
+        return x
+    if isinstance(x, PyI) and isinstance(y, PyI):
+        return PyI(z3.If(cx, x.z, y.z))
+    if isinstance(x, PyB) and isinstance(y, PyB):
+        return PyB(z3.If(cx, x.z, y.z))
+    if isinstance(x, (NoneV, Opt, PyI, PyB)) and isinstance(y, (NoneV, Opt, PyI, PyB)) and (isinstance(x, (NoneV, Opt)) or isinstance(y, (NoneV, Opt))):
+        vx, vy = (x.val if isinstance(x, Opt) else None if isinstance(x, NoneV) else x), (y.val if isinstance(y, Opt) else None if isinstance(y, NoneV) else y)
+        nx = x.isnone if isinstance(x, Opt) else z3.BoolVal(isinstance(x, NoneV))
+        ny = y.isnone if isinstance(y, Opt) else z3.BoolVal(isinstance(y, NoneV))
+        if vx is None or vy is None:
+            v = vx if vx is not None else vy
+            return Opt(z3.simplify(z3.If(cx, nx, ny)), v)
+        if same_value(vx, vy):
+            return Opt(z3.simplify(z3.If(cx, nx, ny)), vx)
+        if isinstance(vx, PyI) and isinstance(vy, PyI):
+            return Opt(z3.simplify(z3.If(cx, nx, ny)), PyI(z3.If(cx, vx.z, vy.z)))
+        if isinstance(vx, PyB) and isinstance(vy, PyB):
+            return Opt(z3.simplify(z3.If(cx, nx, ny)), PyB(z3.If(cx, vx.z, vy.z)))
+        return None
+    if isinstance(x, NoneV) and isinstance(y, Custom):
+        return Opt(cx, y)
+    if isinstance(y, NoneV) and isinstance(x, Custom):
+        return Opt(z3.Not(cx), x)
+    if _scalar_marker(x) and _scalar_marker(y):
+        ax = x.h.alts if isinstance(x, Custom) else [(z3.BoolVal(True), x)]
+        ay = y.h.alts if isinstance(y, Custom) else [(z3.BoolVal(True), y)]
+        return Custom(Choice([(z3.And(cx, c), v) for c, v in ax] + [(z3.And(z3.Not(cx), c), v) for c, v in ay]))
+    if isinstance(x, Tup) and isinstance(y, Tup) and len(x.items) == len(y.items) and x.is_list == y.is_list:
+        items = [merge_val(u, v, cx) for u, v in zip(x.items, y.items)]
+        return None if any(i is None for i in items) else Tup(items, x.is_list)
+    return None
+
+
+def merge2(a, b, extra=None):
+    """-> merged path or None.  extra = (va, vb): a value carried next to each path (return value of an inlined call)"""
+    if a.ctl is not None or b.ctl is not None or len(a.stack) != len(b.stack) or len(a.axioms) != len(b.axioms):
+        return None
+    if ghost_sig(a) != ghost_sig(b):
+        return None
+    for (ea, _), (eb, _) in zip(a.stack, b.stack):
+        if set(ea) != set(eb) or not all(same_value(ea[k], eb[k]) for k in ea):
+            return None
+    idb, ida = set(c.get_id() for c in b.pc), set(c.get_id() for c in a.pc)
+    common = [c for c in a.pc if c.get_id() in idb]
+    ra, rb = [c for c in a.pc if c.get_id() not in idb], [c for c in b.pc if c.get_id() not in ida]
+    ca = z3.And(*ra) if ra else z3.BoolVal(True)
+    cb = z3.And(*rb) if rb else z3.BoolVal(True)
+    env = {}
+    for v in set(a.env) | set(b.env):
+        x, y = a.env.get(v), b.env.get(v)
+        if x is None or y is None:
+            continue                     # bound on one side only: unbound after the join (a later read is flagged as a global)
+        m = merge_val(x, y, ca)
+        if m is None:
+            return None
+        env[v] = m
+    ev = None
+    if extra is not None:
+        ev = merge_val(extra[0], extra[1], ca)
+        if ev is None:
+            return None
+    recs = {}
+    for key in set(k for k in list(a.ghost) + list(b.ghost) if _is_recset(k)):
+        dflt = _RECS[key[1]].fields.get(key[2], NONE)
+        mv = merge_val(a.ghost.get(key, dflt), b.ghost.get(key, dflt), ca)
+        if mv is None:
+            return None
+        recs[key] = mv
+    m = a.fork()
+    m.ghost.update(recs)
+    m.pc = common + [z3.simplify(z3.Or(ca, cb))]
+    m.env = env
+    m.opq = {k: v for k, v in a.opq.items() if k in b.opq and (b.opq[k] is v or (z3.is_expr(v) and z3.is_expr(b.opq[k]) and v.eq(b.opq[k]))
+                                                              or (not z3.is_expr(v) and not z3.is_expr(b.opq[k]) and same_value(v, b.opq[k])))}
+    m.ghost = {k: v for k, v in m.ghost.items() if not (isinstance(k, str) and k.startswith("locals:"))}
+    return m, ev
+
+
+def merge_paths(paths):
+    reps = []
+    for q in paths:
+        for k, r in enumerate(reps):
+            m = merge2(r, q)
+            if m is not None:
+                reps[k] = m[0]
+                break
+        else:
+            reps.append(q)
+    return reps
+
+
+def merge_results(pairs):
+    """[(path, value)] of an inlined call"""
+    reps = []
+    for q, v in pairs:
+        for k, (r, rv) in enumerate(reps):
+            m = merge2(r, q, (rv, v)) if r.ctl is None and q.ctl is None else None
+            if m is not None:
+                reps[k] = m
+                break
+        else:
+            reps.append((q, v))
+    return reps
 
 
 class AnyMask:
@@ -862,31 +1081,36 @@ class AnyMask:
 
 
 # ---- handlers shared by the runs -------------------------------------------------------------------------------------------------
-DT_ITEM = {"np.uint8": 1, "np.int8": 1, "np.int32": 4, "np.uint32": 4, "np.int64": 8, "'uint8'": 1, '"uint8"': 1, "'int32'": 4,
-           "'uint32'": 4, "'int64'": 8, "np.bool_": 1, "bool": 1, "'int8'": 1}
+NP_ITEM = {"uint8": 1, "int8": 1, "bool_": 1, "bool": 1, "int16": 2, "uint16": 2, "int32": 4, "uint32": 4, "int64": 8, "uint64": 8,
+           "float32": 4, "float64": 8}
 
 
 def dtype_item(eng, p, node, val):
-    """element size of the dtype argument of np.empty / np.zeros (source text of the argument + its value)"""
-    src = ast.unparse(node) if node is not None else ""
-    if src in DT_ITEM:
-        return z3.IntVal(DT_ITEM[src])
-    if isinstance(node, ast.IfExp):
-        return None
+    """element size of the dtype argument of np.empty / np.zeros / np.frombuffer: from the evaluated value (np.<name>, '<name>',
+    assign.dtype) or - for the literal forms - from the source text of the argument"""
+    if isinstance(val, Opaque) and isinstance(val.tag, tuple) and len(val.tag) == 2 and val.tag[0] == "global:np" and val.tag[1] in NP_ITEM:
+        return z3.IntVal(NP_ITEM[val.tag[1]])
+    if isinstance(val, Str) and val.s in NP_ITEM:
+        return z3.IntVal(NP_ITEM[val.s])
     if isinstance(val, Custom) and isinstance(val.h, DTypeObj):
         return val.h.root.item
-    raise Unsupported("dtype " + src)
+    if isinstance(val, Opaque) and val.tag == "global:bool":
+        return z3.IntVal(1)
+    # 'int%i' % bit_width
+    if isinstance(node, ast.BinOp) and isinstance(node.op, ast.Mod) and isinstance(node.left, ast.Constant) and node.left.value == "int%i":
+        bw = eng.as_int(eng.ev1(node.right, p), p)
+        return bw / 8
+    raise Unsupported("dtype " + (ast.unparse(node) if node is not None else "?"))
 
 
-def base_handlers(S):
+def base_handlers(S, hooks=None):
+    hooks = hooks or {}
+
     def h_empty(eng, p, args, kw, node):
         n = eng.as_int(args[0], p)
         dnode = next((k.value for k in node.keywords if k.arg == "dtype"), node.args[1] if len(node.args) > 1 else None)
         dval = kw.get("dtype") or (args[1] if len(args) > 1 else None)
         fname = ast.unparse(node.func)
-        if isinstance(dnode, ast.IfExp):
-            # np.int64 if <cond> else np.int32: evaluated by the engine into two paths already? (IfExp forks in ev_args): use source of branch
-            raise Unsupported("conditional dtype reached the handler")
         item = dtype_item(eng, p, dnode, dval)
         eng.oblige(p, f"{eng.cur_func}.allocation_size_nonnegative@L{node.lineno}", "safety", n >= 0, node)
         root = Root(f"{fname}@L{node.lineno}", n, item)
@@ -942,6 +1166,8 @@ def base_handlers(S):
             io.set(q, pos + c)
             o.set(q, o.nbytes)
             set_content(q, o.arr.root, ("hybrid", len(q.ghost["ev"]) - 1))
+            if "hybrid" in hooks:
+                hooks["hybrid"](eng, q, q.ghost["ev"][-1])
             outs.append((q, NONE))
         return outs
 
@@ -977,7 +1203,8 @@ def base_handlers(S):
             if dnode is not None and ast.unparse(dnode) in ("'uint8'", '"uint8"', "np.uint8"):
                 return [(p, b)]
             # a typed view of the bytes (dictionary-index fast path): item size unknown here
-            item = fint("frombuffer_itemsize")
+            dval = kw.get("dtype") or (args[1] if len(args) > 1 else None)
+            item = dtype_item(eng, p, dnode, dval)
             p.pc += [item >= 1]
             root = Root(f"np.frombuffer@L{node.lineno}", fint("frombuffer_len"), item)
             p.pc += [root.n >= 0, root.n * item <= b.h.n, (root.n + 1) * item > b.h.n]
@@ -1069,21 +1296,32 @@ def base_handlers(S):
             return [(p, PyI(zmin(a, b)))]
         raise Unsupported("min shape")
 
+    def h_len(eng, p, args, kw, node):
+        from vc.symexec import BUILTINS
+        v = args[0]
+        if isinstance(v, Opt):
+            eng.oblige(p, f"{eng.cur_func}.no_len_of_None@L{node.lineno}", "safety", z3.Not(v.isnone), node)
+            v = v.val
+        return BUILTINS["len"](eng, p, [v], kw, node)
+
     def h_not_equal(eng, p, args, kw, node):
         a = unopt(args[0])
         out = unopt(kw.get("out"))
         if not (isinstance(a, Custom) and isinstance(a.h, Arr) and isinstance(out, Custom) and isinstance(out.h, Arr)
                 and a.h.root is out.h.root):
             raise Unsupported("np.not_equal shape")
+        if not (a.h.view == "bytes" and a.h.role == out.h.role):
+            raise Unsupported("np.not_equal shape")
         m = CmpMask(out.h._like(view="elem"), "!=", eng.as_int(args[1], p))
-        p.ghost[("asmask", out.h.root.id)] = m
+        p.ghost[("asmask", out.h.root.id, out.h.role)] = m
+        emit(p, kind="not_equal_inplace", arr=out.h, val=m.val, line=node.lineno)
         return [(p, Custom(m))]
 
     return {"np.empty": h_empty, "np.zeros": h_empty, "encoding.NumpyIO": h_numpyio, "encoding.width_from_max_int": h_width,
             "encoding.read_rle_bit_packed_hybrid": h_hybrid, "encoding.delta_binary_unpack": h_delta,
             "encoding.read_unsigned_var_int": h_varint, "np.frombuffer": h_frombuffer, "decompress_data": h_decompress,
             "read_plain": h_read_plain, "unpack_byte_array": h_unpack_byte_array, "convert": h_convert, "int": h_int,
-            "getattr": h_getattr, "hasattr": h_hasattr, "min": h_min, "np.not_equal": h_not_equal}
+            "getattr": h_getattr, "hasattr": h_hasattr, "min": h_min, "np.not_equal": h_not_equal, "len": h_len}
 
 
 # ---- discharge -----------------------------------------------------------------------------------------------------------------
@@ -1128,3 +1366,1123 @@ def discharge(res, eng, timeout, rename=None):
             st, be, secs, m = backends.discharge(ob, timeout)
             res.add(name, st, short_model(m), secs, be, ob.note or ob.kind)
     eng.oblig = []
+
+
+# ---- page headers -----------------------------------------------------------------------------------------------------------------
+class PageSym:
+    """the header fields of one page as z3 terms; mk(name) makes the term (a constant for a single page, F(k) for page k of a chunk)"""
+
+    def __init__(self, mk):
+        self.type, self.cps, self.ups, self.hl = mk("type"), mk("compressed_page_size"), mk("uncompressed_page_size"), mk("header_length")
+        self.nv, self.enc = mk("data_page_header.num_values"), mk("data_page_header.encoding")
+        self.dle, self.rle = mk("data_page_header.definition_level_encoding"), mk("data_page_header.repetition_level_encoding")
+        self.nv2, self.nn2, self.nr2 = (mk("data_page_header_v2." + x) for x in ("num_values", "num_nulls", "num_rows"))
+        self.enc2 = mk("data_page_header_v2.encoding")
+        self.dl, self.rl = mk("data_page_header_v2.definition_levels_byte_length"), mk("data_page_header_v2.repetition_levels_byte_length")
+        self.isc_none, self.isc = mk("data_page_header_v2.is_compressed_is_None", B), mk("data_page_header_v2.is_compressed", B)
+        self.dnv, self.denc = mk("dictionary_page_header.num_values"), mk("dictionary_page_header.encoding")
+        self.daph = Rec("DataPageHeader", {"num_values": PyI(self.nv), "encoding": PyI(self.enc), "definition_level_encoding": PyI(self.dle),
+                                           "repetition_level_encoding": PyI(self.rle), "statistics": Opaque("daph.statistics")})
+        self.daph2 = Rec("DataPageHeaderV2", {"num_values": PyI(self.nv2), "num_nulls": PyI(self.nn2), "num_rows": PyI(self.nr2),
+                                              "encoding": PyI(self.enc2), "definition_levels_byte_length": PyI(self.dl),
+                                              "repetition_levels_byte_length": PyI(self.rl),
+                                              "is_compressed": Opt(self.isc_none, PyB(self.isc)), "statistics": Opaque("daph2.statistics")})
+        self.dph = Rec("DictionaryPageHeader", {"num_values": PyI(self.dnv), "encoding": PyI(self.denc)})
+        self.ph = Rec("PageHeader", {"type": PyI(self.type), "compressed_page_size": PyI(self.cps), "uncompressed_page_size": PyI(self.ups),
+                                     "data_page_header": Opt(self.type != PT["DATA_PAGE"], Custom(self.daph)),
+                                     "data_page_header_v2": Opt(self.type != PT["DATA_PAGE_V2"], Custom(self.daph2)),
+                                     "dictionary_page_header": Opt(self.type != PT["DICTIONARY_PAGE"], Custom(self.dph))})
+        self.pre = [self.hl >= 1, self.cps >= 0, self.ups >= 0, self.type >= 0, self.type <= 3,
+                    self.nv >= 1, self.nv2 >= 1, self.nn2 >= 0, self.nn2 <= self.nv2, self.dl >= 0, self.rl >= 0, self.dnv >= 0,
+                    self.enc >= 0, self.enc <= 9, self.enc2 >= 0, self.enc2 <= 9, self.denc >= 0, self.denc <= 9,
+                    z3.Or(self.dle == ENC["RLE"], self.dle == ENC["BIT_PACKED"]), z3.Or(self.rle == ENC["RLE"], self.rle == ENC["BIT_PACKED"])]
+
+
+def const_page(prefix="ph."):
+    return PageSym(lambda name, sort=I: z3.Const(prefix + name, sort))
+
+
+def in_set(x, vals):
+    return z3.Or(*[x == v for v in vals])
+
+
+def page_bytes_obligations(eng, q, fn, f, entry, page, S, body_needed=True):
+    """_read_page: the page body is the compressed_page_size bytes at the cursor, decompressed with the chunk's codec to
+    uncompressed_page_size bytes; -> the body region (or None)"""
+    reads = [e for e in events(q, "read") if e["io"] is f]
+    decs = events(q, "decompress")
+    ok_read = len(reads) == 1
+    eng.pose(q, fn + ".page_bytes.read_at_cursor_exactly_compressed_page_size",
+             z3.And(reads[0]["pos"] == entry, reads[0]["asked"] == page.cps, reads[0]["got"] == page.cps, f.pos(q) == entry + page.cps)
+             if ok_read else z3.BoolVal(False),
+             "one read of compressed_page_size bytes at the cursor; the cursor ends at the next page header")
+    ok_dec = ok_read and len(decs) == 1 and decs[0]["src"] is reads[0]["bts"]
+    eng.pose(q, fn + ".page_bytes.decompressed_with_chunk_codec_to_uncompressed_page_size",
+             z3.And(decs[0]["codec"] == S.codec, decs[0]["size"] == page.ups) if ok_dec else z3.BoolVal(False),
+             "the bytes read are decompressed once, with ColumnMetaData.codec, to uncompressed_page_size bytes")
+    return decs[0]["region"] if ok_dec else None
+
+
+def run_paths(eng, name, p, args, kw=None):
+    outs = eng.run(name, p, args, kw or {})
+    rets = [q for q in outs if q.ctl[0] == "ret"]
+    raises = [q for q in outs if q.ctl[0] == "raise"]
+    return rets, raises
+
+
+def raise_line(q):
+    for kind, ln in reversed(q.trace):
+        if kind == "raise":
+            return ln
+    return 0
+
+
+# ---- read_dictionary_page -----------------------------------------------------------------------------------------------------------
+def run_dictionary_page(ctx, funcs, timeout):
+    res = Results()
+    fn = "read_dictionary_page"
+    S = Schema()
+    page = const_page()
+    chunk = Region("column chunk", z3.Int("chunk_len"))
+    f = IOBuf(Bts(chunk, z3.IntVal(0), chunk.n), chunk.n, name="infile")
+    entry = z3.Int("cursor_at_entry")
+    eng = PEngine(funcs=funcs, handlers=base_handlers(S), inline=("_read_page",), opaque_calls=True)
+    p = Path()
+    p.pc += S.pre + page.pre + [page.type == PT["DICTIONARY_PAGE"], page.cps >= 1, page.ups >= 1, z3.Implies(S.codec == 0, page.cps == page.ups),
+                                entry >= 0, entry + page.cps <= chunk.n]
+    f.set(p, entry)
+    st, _, _ = solve(list(p.pc), timeout)
+    if st == REFUTED:
+        ctx.vacuity["requires_sat"] += 1
+    else:
+        ctx.engine_error(fn + ": precondition unsatisfiable")
+    try:
+        rets, raises = run_paths(eng, fn, p, [Custom(f), Custom(S.helper), Custom(page.ph), Custom(S.cmd)], {"utf": PyB(z3.Bool("utf"))})
+    except Unsupported as ex:
+        res.add(fn + ".out_of_reach", UNKNOWN, None, 0.0, "engine", str(ex))
+        return res
+    for q in rets:
+        body = page_bytes_obligations(eng, q, fn, f, entry, page, S)
+        pl = events(q, "plain")
+        ok = body is not None and len(pl) == 1
+        eng.pose(q, fn + ".count_is_header_num_values", pl[0]["count"] == page.dnv if ok else z3.BoolVal(False),
+                 "the number of values decoded from a dictionary page is dictionary_page_header.num_values")
+        eng.pose(q, fn + ".decodes_whole_page_as_plain",
+                 z3.And(z3.BoolVal(pl[0]["bts"].region is body), pl[0]["bts"].a == 0, pl[0]["bts"].n == body.n, pl[0]["ptype"] == S.ptype)
+                 if ok else z3.BoolVal(False), "PLAIN decode of the column's physical type from the first byte of the uncompressed page")
+        r = unopt(q.ctl[1])
+        ok_r = ok and isinstance(r, Custom) and isinstance(r.h, Arr) and r.h.root is pl[0]["out"]
+        eng.pose(q, fn + ".returns_the_decoded_values", z3.And(r.h.off == 0, r.h.n == page.dnv) if ok_r else z3.BoolVal(False),
+                 "returns exactly the num_values decoded entries")
+        eng.pose(q, fn + ".non_plain_dictionary_page_raises", in_set(page.denc, (ENC["PLAIN"], ENC["PLAIN_DICTIONARY"])),
+                 "a dictionary page whose header declares another encoding than PLAIN (legacy: PLAIN_DICTIONARY) is refused, not decoded as PLAIN")
+    for q in raises:
+        eng.pose(q, f"{fn}.supported_page_is_not_refused@L{raise_line(q)}",
+                 z3.Not(in_set(page.denc, (ENC["PLAIN"], ENC["PLAIN_DICTIONARY"]))), "a valid PLAIN dictionary page is decoded, not refused")
+    if not rets:
+        ctx.engine_error(fn + ": no returning path")
+    ctx.vacuity["covers"] += len(rets)
+    for q in rets[:1]:
+        pl = events(q, "plain")
+        if pl:
+            stt, _, _ = solve(list(q.pc) + [pl[0]["count"] != page.dnv + 1], timeout)
+            if stt == REFUTED:
+                ctx.vacuity["must_fail_sat"] += 1
+    discharge(res, eng, timeout)
+    res.stats = {"paths_ret": len(rets), "paths_raise": len(raises)}
+    return res
+
+
+# ---- read_data_page (v1) ------------------------------------------------------------------------------------------------------------
+def v1_handlers(S):
+    h = base_handlers(S)
+
+    def h_skip(eng, p, args, kw, node):
+        io = unopt(args[0])
+        if not (isinstance(io, Custom) and isinstance(io.h, IOBuf)):
+            raise Unsupported("skip_definition_bytes argument")
+        io = io.h
+        L = LEN32(io.base.region.rid, io.abs(p))
+        p.pc.append(L >= 0)
+        emit(p, kind="skipdef", io=io, at=io.abs(p), num=eng.as_int(args[1], p), line=node.lineno)
+        io.set(p, io.pos(p) + 4 + L)
+        return [(p, NONE)]
+    h["skip_definition_bytes"] = h_skip
+    return h
+
+
+def run_data_page_v1(ctx, funcs, timeout):
+    res = Results()
+    fn = "read_data_page"
+    S = Schema()
+    page = const_page()
+    chunk = Region("column chunk", z3.Int("chunk_len"))
+    f = IOBuf(Bts(chunk, z3.IntVal(0), chunk.n), chunk.n, name="infile")
+    entry = z3.Int("cursor_at_entry")
+    skip, selfmade = z3.Bool("skip_nulls"), z3.Bool("selfmade")
+    loop = next(k for k, n in enumerate(sorted([n for n in ast.walk(funcs["read_data"].tree) if isinstance(n, (ast.For, ast.While))],
+                                               key=lambda n: (n.lineno, n.col_offset))) if isinstance(n, ast.While))
+    eng = PEngine(funcs=funcs, handlers=v1_handlers(S), inline=("_read_page", "read_rep", "read_def", "read_data"), opaque_calls=True,
+                  loops={("read_data", loop): LoopSpec("unroll", 1)})
+    p = Path()
+    NV, E = page.nv, page.enc
+    p.pc += S.pre + page.pre + [page.type == PT["DATA_PAGE"], page.cps >= 1, page.ups >= 1, z3.Implies(S.codec == 0, page.cps == page.ups),
+                                entry >= 0, entry + page.cps <= chunk.n,
+                                z3.Implies(skip, z3.And(selfmade, S.null_count == 0)),
+                                z3.Implies(E == ENC["RLE"], S.ptype == TY["BOOLEAN"]),
+                                z3.Implies(E == ENC["DELTA_BINARY_PACKED"], z3.Or(S.ptype == TY["INT32"], S.ptype == TY["INT64"]))]
+    p.pc += width_facts(S.max_def) + width_facts(S.max_rep)
+    f.set(p, entry)
+    st, _, _ = solve(list(p.pc), timeout)
+    if st == REFUTED:
+        ctx.vacuity["requires_sat"] += 1
+    else:
+        ctx.engine_error(fn + ": precondition unsatisfiable")
+    try:
+        rets, raises = run_paths(eng, fn, p, [Custom(f), Custom(S.helper), Custom(page.ph), Custom(S.cmd), PyB(skip)], {"selfmade": PyB(selfmade)})
+    except Unsupported as ex:
+        res.add(fn + ".out_of_reach", UNKNOWN, None, 0.0, "engine", str(ex))
+        return res
+    supported = in_set(E, SUPPORTED)
+    n_must_fail = 0
+    for q in rets:
+        body = page_bytes_obligations(eng, q, fn, f, entry, page, S)
+        eng.pose(q, fn + ".unsupported_encoding_raises", supported,
+                 "a page whose value encoding is outside PLAIN / PLAIN_DICTIONARY / RLE_DICTIONARY / RLE / DELTA_BINARY_PACKED reaches a raise")
+        if body is None:
+            continue
+        bid = body.rid
+        # ---- the layout the FORMAT prescribes for this body
+        has_rep, has_def = S.max_rep > 0, S.max_def > 0
+        r_end = z3.If(has_rep, 4 + LEN32(bid, 0), 0)
+        d_end = z3.If(has_def, r_end + 4 + LEN32(bid, r_end), r_end)
+        valid = [LEN32(bid, 0) >= 0, LEN32(bid, r_end) >= 0, d_end <= body.n, body.n == z3.If(S.codec == 0, page.cps, page.ups)]
+        q = q.fork()
+        q.pc += valid
+        lev = [e for e in events(q, "hybrid") if e["prefix_at"] is not None and e["region"] is body and e["func"] == "read_data"]
+        skips = [e for e in events(q, "skipdef") if e["io"].base.region is body]
+        reads_def = z3.And(z3.Not(S.required), z3.Not(skip))
+        eng.pose(q, fn + ".levels.blocks_decoded_are_the_blocks_present",
+                 z3.IntVal(len(lev)) == z3.If(has_rep, 1, 0) + z3.If(reads_def, 1, 0),
+                 "one RLE level block is decoded for repetition levels iff max_rep > 0, one for definition levels iff the column is "
+                 "not required (unless the block is skipped for a selfmade chunk without nulls)")
+        rep_ev = def_ev = None
+        if len(lev) == 2:
+            rep_ev, def_ev = lev
+        elif len(lev) == 1:
+            # which one it is follows from the path condition
+            if not eng.feasible(q, z3.Not(has_rep)):
+                rep_ev = lev[0]
+            else:
+                def_ev = lev[0]
+
+        def conform(e, at, mx):
+            return z3.And(e["prefix_at"] == at, e["width"] == WIDTH(mx), e["cap"] == NV, e["out"].root.n == NV, e["out"].off == 0)
+        if rep_ev is not None:
+            eng.pose(q, fn + ".rep_levels.first_in_page_with_length_prefix", z3.And(has_rep, rep_ev["prefix_at"] == 0),
+                     "repetition levels: 4-byte length + runs at offset 0 of the page body")
+            eng.pose(q, fn + ".levels.width_is_width_from_max_level", rep_ev["width"] == WIDTH(S.max_rep))
+            eng.pose(q, fn + ".levels.count_is_num_values", z3.And(rep_ev["cap"] == NV, rep_ev["out"].root.n == NV, rep_ev["out"].off == 0))
+            eng.pose(q, fn + ".levels.declared_encoding_is_the_one_decoded", page.rle == ENC["RLE"],
+                     "levels are decoded as RLE hybrid only if the header declares RLE (deprecated BIT_PACKED must be refused or decoded as such)")
+            eng.pose(q, fn + ".levels.declared_encoding_is_the_one_decoded[header declares RLE levels]",
+                     z3.Implies(z3.And(page.rle == ENC["RLE"], page.dle == ENC["RLE"]), page.rle == ENC["RLE"]))
+        if def_ev is not None:
+            eng.pose(q, fn + ".def_levels.after_rep_levels_with_length_prefix", z3.And(reads_def, def_ev["prefix_at"] == r_end),
+                     "definition levels: 4-byte length + runs directly after the repetition level block (offset 0 for a flat column)")
+            eng.pose(q, fn + ".levels.width_is_width_from_max_level", def_ev["width"] == WIDTH(S.max_def))
+            eng.pose(q, fn + ".levels.count_is_num_values", z3.And(def_ev["cap"] == NV, def_ev["out"].root.n == NV, def_ev["out"].off == 0))
+            eng.pose(q, fn + ".levels.declared_encoding_is_the_one_decoded", page.dle == ENC["RLE"],
+                     "levels are decoded as RLE hybrid only if the header declares RLE (deprecated BIT_PACKED must be refused or decoded as such)")
+            eng.pose(q, fn + ".levels.declared_encoding_is_the_one_decoded[header declares RLE levels]",
+                     z3.Implies(z3.And(page.rle == ENC["RLE"], page.dle == ENC["RLE"]), page.dle == ENC["RLE"]))
+        eng.pose(q, fn + ".def_levels.skipped_block_only_when_no_nulls",
+                 z3.And(z3.BoolVal(len(skips) <= 1), z3.And(skip, z3.Not(S.required), skips[0]["at"] == r_end, skips[0]["num"] == NV)
+                        if skips else z3.BoolVal(True)),
+                 "the definition block is skipped unread only for a selfmade chunk whose statistics say null_count == 0, at its own offset")
+        # ---- number of nulls
+        loc = q.ghost.get("locals:" + fn, {})
+        nn_code = loc.get("num_nulls")
+        if def_ev is not None:
+            cnt = CNT(def_ev["out"].root.aid, S.max_def)
+            q.pc += [cnt >= 0, cnt <= NV]
+            nn_spec = z3.If(z3.Or(S.required, skip), 0, NV - cnt)
+        else:
+            nn_spec = z3.IntVal(0)
+        eng.pose(q, fn + ".num_nulls_is_num_values_minus_defined",
+                 eng.as_int(nn_code, q) == nn_spec if isinstance(nn_code, (PyI, PyB)) else z3.BoolVal(False),
+                 "num_nulls == num_values - count(definition level == max_definition_level) of THIS page's level array (0 for a required column)")
+        nval = NV - nn_spec
+        # a valid values section is not cut short: index runs follow the width byte, boolean runs follow their length prefix
+        q.pc += [z3.Implies(z3.And(in_set(E, DICT_ENCS), nval >= 1, BYTE(bid, d_end) >= 1), d_end + 1 < body.n),
+                 z3.Implies(z3.And(E == ENC["RLE"], nval >= 1), d_end + 4 < body.n), z3.Implies(nval >= 1, d_end < body.n)]
+        # ---- values
+        io_body = [e for e in q.ghost.get("ev", []) if e["kind"] in ("read", "read_byte", "hybrid", "delta", "varint") and
+                   e.get("io") is not None and e["io"].base is not None and e["io"].base.region is body and e not in lev]
+        first = io_body[0] if io_body else None
+
+        def ev_pos(e):
+            return {"read": lambda: e["pos"], "read_byte": lambda: e["pos"], "hybrid": lambda: e["prefix_at"] if e["prefix_at"] is not None
+                    else e["start"], "delta": lambda: e["start"], "varint": lambda: e["pos"]}[e["kind"]]()
+        some = nval >= 1          # a page of nulls only may have an empty values section: nothing is decoded from it
+        eng.pose(q, fn + ".values.start_after_levels", z3.Implies(some, ev_pos(first) == d_end) if first is not None else z3.BoolVal(False),
+                 "the first byte given to the value decoder is the one after the level blocks (rep block, then def block)")
+        ret = q.ctl[1]
+        items = ret.items if isinstance(ret, Tup) and len(ret.items) == 3 else None
+        vals = unopt(items[2]) if items else None
+        varr = vals.h if isinstance(vals, Custom) and isinstance(vals.h, Arr) else None
+        src = content(q, varr.root) if varr is not None else None
+        is_dict, is_rle, is_plain, is_delta = in_set(E, DICT_ENCS), E == ENC["RLE"], E == ENC["PLAIN"], E == ENC["DELTA_BINARY_PACKED"]
+        plains = [e for e in events(q, "plain")]
+        hyb = [e for e in io_body if e["kind"] == "hybrid"]
+        rb = [e for e in io_body if e["kind"] == "read_byte"]
+        dl = [e for e in io_body if e["kind"] == "delta"]
+        vi = [e for e in io_body if e["kind"] == "varint"]
+        count_goal = None
+        if plains:
+            e = plains[0]
+            eng.pose(q, fn + ".values.plain.decodes_from_value_start_to_page_end",
+                     z3.Implies(some, z3.And(is_plain, z3.BoolVal(e["bts"].region is body), e["bts"].a == d_end, e["bts"].n == body.n - d_end,
+                                             e["ptype"] == S.ptype)),
+                     "PLAIN values: the bytes from the end of the levels to the end of the page, decoded as the column's physical type")
+            count_goal = z3.And(e["count"] == nval, z3.BoolVal(src == ("plain", e["seq"])))
+        elif dl:
+            e = dl[0]
+            eng.pose(q, fn + ".values.delta.output_width_matches_type",
+                     z3.And(is_delta, e["longval"] == (S.ptype == TY["INT64"]), e["out"].root.item == z3.If(S.ptype == TY["INT64"], 8, 4),
+                            z3.BoolVal(e["out"].view == "bytes")),
+                     "DELTA_BINARY_PACKED: 8-byte stores into an int64 array iff the column is INT64, else 4-byte stores into an int32 array")
+            count_goal = z3.And(e["cap"] == nval, e["out"].off == 0, z3.BoolVal(src == ("delta", e["seq"])))
+        elif vi:
+            # dictionary-index fast path of selfmade files (one bit-packed run of whole bytes): framing is C01's lemma
+            eng.pose(q, fn + ".values.dictionary.width_byte_consumed",
+                     z3.Implies(some, z3.And(selfmade, z3.BoolVal(len(rb) == 1), *([rb[0]["pos"] == d_end, vi[0]["pos"] == d_end + 1] if rb else []))),
+                     "dictionary indices: one byte (the index bit width) is consumed before the runs")
+            count_goal = None
+        elif hyb:
+            e = hyb[0]
+            wb = z3.And(z3.BoolVal(len(rb) == 1), *([rb[0]["pos"] == d_end, e["width"] == rb[0]["value"], e["start"] == d_end + 1] if rb else []))
+            note = "dictionary indices: the byte after the levels is the index bit width, the runs start one byte later and are decoded with it"
+            eng.pose(q, fn + ".values.dictionary.width_byte_consumed", z3.Implies(z3.And(some, is_dict), wb), note)
+            eng.pose(q, fn + ".values.dictionary.width_byte_consumed[column is not BOOLEAN]",
+                     z3.Implies(z3.And(some, is_dict, S.ptype != TY["BOOLEAN"]), wb), note)
+            eng.pose(q, fn + ".values.dictionary.runs_extend_to_page_end", z3.Implies(z3.And(some, is_dict), e["start"] + e["nbytes"] == body.n),
+                     "dictionary indices: the runs take the rest of the page (no length prefix)")
+            eng.pose(q, fn + ".values.rle_boolean.runs_start_after_length_prefix",
+                     z3.Implies(z3.And(some, is_rle), z3.And(e["width"] == 1, z3.Or(e["prefix_at"] == d_end if e["prefix_at"] is not None
+                                                                                   else z3.BoolVal(False), e["start"] == d_end + 4))),
+                     "RLE booleans: 4-byte length, then the runs (bit width 1)")
+            count_goal = z3.And(e["cap"] == nval, e["out"].off == 0, z3.BoolVal(src == ("hybrid", e["seq"])))
+        elif src == ("zeros",):
+            for suffix, extra in (("", []), ("[column is not BOOLEAN]", [S.ptype != TY["BOOLEAN"]])):
+                eng.pose(q, fn + ".values.dictionary.width_byte_consumed" + suffix,
+                         z3.Implies(z3.And(some, is_dict, *extra), z3.And(z3.BoolVal(len(rb) == 1), *([rb[0]["pos"] == d_end, rb[0]["value"] == 0]
+                                                                                                   if rb else []))),
+                         "index bit width 0: every index is 0, no run is decoded")
+            count_goal = varr.root.n == nval
+        if count_goal is not None:
+            eng.pose(q, fn + ".values.count_is_num_values_minus_num_nulls", count_goal,
+                     "the value decoder is asked for num_values - num_nulls values and the array returned is the one it filled")
+            eng.pose(q, fn + ".values.returned_length_is_num_values_minus_num_nulls",
+                     z3.And(varr.n == nval, varr.off == 0) if varr is not None else z3.BoolVal(False), "len(values) == num_values - num_nulls")
+        elif vi:
+            pass
+        else:
+            eng.pose(q, fn + ".values.count_is_num_values_minus_num_nulls", z3.BoolVal(False), "no value decoder call was found on this path")
+        # ---- what is returned
+        if items is None:
+            eng.pose(q, fn + ".returns.triple", z3.BoolVal(False))
+            continue
+        def none_or_array(v, ev, if_none, if_array):
+            """v: NONE | array | Opt(isnone, array) -> goal"""
+            isn = v.isnone if isinstance(v, Opt) else z3.BoolVal(isinstance(v, NoneV))
+            u = unopt(v)
+            if isinstance(u, NoneV):
+                return if_none
+            if isinstance(u, Custom) and isinstance(u.h, Arr) and ev is not None and u.h.root is ev["out"].root:
+                return z3.If(isn, if_none, z3.And(if_array, u.h.off == 0, u.h.n == NV))
+            return z3.BoolVal(False)
+        eng.pose(q, fn + ".returns.definition_levels_None_iff_no_nulls", none_or_array(items[0], def_ev, nn_spec == 0, nn_spec > 0),
+                 "definition levels are returned (all num_values of them, of this page) iff the page has a null")
+        g = none_or_array(items[1], rep_ev, z3.Not(has_rep), has_rep)
+        eng.pose(q, fn + ".returns.repetition_levels_None_iff_max_rep_0", g)
+        if n_must_fail == 0 and plains:
+            stt, _, _ = solve(list(q.pc) + [plains[0]["count"] != nval + 1], timeout)
+            if stt == REFUTED:
+                n_must_fail += 1
+                ctx.vacuity["must_fail_sat"] += 1
+    for q in raises:
+        why = [e for e in events(q, "numpy_raise")]
+        eng.pose(q, f"{fn}.supported_page_is_not_refused@L{raise_line(q)}",
+                 z3.Not(z3.And(supported, page.dle == ENC["RLE"], page.rle == ENC["RLE"])),
+                 "a valid page with a supported encoding is decoded, not refused" + (": " + why[0]["why"] if why else ""))
+    if not rets:
+        ctx.engine_error(fn + ": no returning path")
+    ctx.vacuity["covers"] += len(rets)
+    discharge(res, eng, timeout)
+    res.stats = {"paths_ret": len(rets), "paths_raise": len(raises), "feas": eng.n_feas}
+    return res
+
+
+# ---- read_col ---------------------------------------------------------------------------------------------------------------------
+class Chunk:
+    """the page sequence of one column chunk as the FORMAT defines it (see module docstring)"""
+
+    def __init__(self, mode):
+        self.mode = mode                                   # 'values' | 'categorical'
+        self.S = Schema(flat=True)
+        self.K = z3.Int("pages_in_chunk")
+        self.OFF, self.VS = z3.Function("page_offset", I, I), z3.Function("values_before_page", I, I)
+        self.fn = {}
+        self.mode = mode
+        self.len_assign = z3.Int("len_assign")
+        self.assign = Root("assign", self.len_assign, z3.Int("assign.itemsize"), kind=z3.Int("assign.dtype.kind"), masked=z3.Bool("assign_is_masked_array"))
+        self.selfmade = z3.Bool("selfmade")
+        self.iinfo_max = z3.Int("iinfo(assign.dtype).max")
+        self.region = Region("column chunk", self.S.tcs)
+        self.io = None
+        self.loops, self.body_paths, self.entries = 0, [], []
+        self.pre = self.S.pre + [self.K >= 0, self.OFF(0) == 0, self.VS(0) == 0, self.VS(self.K) == self.S.num_values, self.S.num_values >= 0,
+                                 self.len_assign >= self.S.num_values, self.S.tcs >= 0, self.S.dpo >= 4,
+                                 z3.Implies(z3.Not(self.S.dict_none), z3.And(self.S.dict_off >= 0, z3.Implies(self.S.dict_off > 0,
+                                                                                                             self.S.dict_off < self.S.dpo))),
+                                 self.assign.item >= 1, self.iinfo_max >= self.page(z3.IntVal(0)).dnv]
+        if mode == "categorical":               # category codes: a plain integer array
+            self.pre += [in_set(self.assign.kind, [ord("i"), ord("u")]), z3.Not(self.assign.masked)]
+
+    def page(self, k):
+        def mk(name, sort=I):
+            key = (name, sort)
+            if key not in self.fn:
+                self.fn[key] = z3.Function("page." + name, I, sort)
+            return self.fn[key](k)
+        return PageSym(mk)
+
+    def nvp(self, pg):
+        return z3.If(pg.type == PT["DATA_PAGE"], pg.nv, z3.If(pg.type == PT["DATA_PAGE_V2"], pg.nv2, 0))
+
+    def page_facts(self, k):
+        """instances at page k of the chunk's defining equations + validity of a chunk (ASSUMED[0])"""
+        pg = self.page(k)
+        p0 = self.page(z3.IntVal(0))
+        enc_k = z3.If(pg.type == PT["DATA_PAGE"], pg.enc, pg.enc2)
+        is_data = z3.Or(pg.type == PT["DATA_PAGE"], pg.type == PT["DATA_PAGE_V2"])
+        return pg, pg.pre + [
+            self.OFF(k + 1) == self.OFF(k) + pg.hl + pg.cps, self.VS(k + 1) == self.VS(k) + self.nvp(pg),
+            z3.Implies(pg.type == PT["DICTIONARY_PAGE"], k == 0),
+            z3.Implies(z3.And(is_data, in_set(enc_k, DICT_ENCS)), z3.And(self.K >= 1, p0.type == PT["DICTIONARY_PAGE"])),
+            z3.Implies(pg.type != PT["DATA_PAGE_V2"], pg.cps >= 1), p0.dnv >= 0,
+            z3.Implies(pg.type == PT["DATA_PAGE_V2"], z3.And(pg.rl == 0, pg.rl + pg.dl <= pg.cps, z3.Implies(self.S.required, pg.nn2 == 0)))]
+
+    def mono(self, a, b):
+        return z3.Implies(z3.And(0 <= a, a <= b, b <= self.K), self.VS(a) <= self.VS(b))
+
+
+class FileObj:
+    tracked = True
+
+    def __init__(self, C):
+        self.C = C
+
+    def call_method(self, eng, p, name, args, kw, node):
+        if name == "seek" and len(args) == 1:
+            emit(p, kind="fseek", off=eng.as_int(args[0], p), line=node.lineno)
+            return [(p, NONE)]
+        if name == "read" and len(args) == 1:
+            n = eng.as_int(args[0], p)
+            emit(p, kind="fread", n=n, line=node.lineno)
+            return [(p, Custom(Bts(self.C.region, z3.IntVal(0), n)))]
+        raise Unsupported("file." + name)
+
+
+class StatsObj:
+    tracked = False
+
+    def __init__(self, S):
+        self.S = S
+        self.none = z3.Bool("cmd.statistics.null_count_is_absent")
+
+    def getattr_default(self, eng, p, name, default):
+        if name == "null_count":
+            return Opt(self.none, PyI(self.S.null_count))
+        raise Unsupported("getattr(statistics, %r)" % name)
+
+    def attr(self, eng, p, name):
+        if name == "null_count":
+            return Opt(self.none, PyI(self.S.null_count))
+        raise Unsupported("statistics." + name)
+
+
+class CatDef:
+    """the '-catdef' entry of the output (a pandas Categorical dtype holder)"""
+    tracked = False
+
+    def hasattr(self, eng, p, name):
+        return z3.BoolVal(name == "_set_categories")
+
+    def getattr_default(self, eng, p, name, default):
+        if name == "_multiindex":
+            return PyB(False)              # ordinary categorical column (multi-index category definitions: out of scope)
+        raise Unsupported("getattr(catdef, %r)" % name)
+
+    def call_method(self, eng, p, name, args, kw, node):
+        if name == "_set_categories":
+            a = unopt(args[0])
+            src = a.h.of if isinstance(a, Custom) and isinstance(a.h, IndexOf) else None
+            emit(p, kind="set_categories", src=src, line=node.lineno)
+            p.ghost["cats_from"] = src.page if isinstance(src, DictVal) else z3.IntVal(-2)
+            return [(p, NONE)]
+        raise Unsupported("catdef." + name)
+
+
+class IndexOf:
+    tracked = False
+
+    def __init__(self, of):
+        self.of = of
+
+
+def loop_ordinal(func, want=ast.While):
+    loops = sorted([n for n in ast.walk(func.tree) if isinstance(n, (ast.For, ast.While))], key=lambda n: (n.lineno, n.col_offset))
+    return next(k for k, n in enumerate(loops) if isinstance(n, want))
+
+
+def marker_ok(src, kind, cat):
+    if isinstance(src, Custom) and isinstance(src.h, Choice):
+        return z3.Or(*[z3.And(c, marker_ok(v, kind, cat)) for c, v in src.h.alts])
+    ints, flt, tm = in_set(kind, [ord(c) for c in "iub"]), kind == ord("f"), in_set(kind, [ord(c) for c in "Mm"])
+    if cat:
+        return z3.BoolVal(isinstance(src, PyI) and z3.is_true(z3.simplify(src.z == -1)))
+    if isinstance(src, Opaque) and src.tag == ("global:pd", "NA"):
+        return ints
+    if isinstance(src, Opaque) and src.tag == ("global:np", "nan"):
+        return flt
+    if isinstance(src, Opaque) and isinstance(src.tag, tuple) and src.tag[:1] == ("NaT",):
+        return tm
+    if isinstance(src, NoneV):
+        return z3.Not(z3.Or(ints, flt, tm))
+    return z3.BoolVal(False)
+
+
+def run_read_col(ctx, funcs, timeout, mode):
+    res = Results()
+    fn, tag = "read_col", f"read_col[{mode}]"
+    C = Chunk(mode)
+    S = C.S
+    cat = mode == "categorical"
+    S.cmd.fields["statistics"] = Custom(StatsObj(S))
+    h = base_handlers(S)
+
+    def cur(p):
+        return p.ghost.get("cur_page")
+
+    def h_from_buffer(eng, p, args, kw, node):
+        io = unopt(args[0])
+        if not (isinstance(io, Custom) and io.h is C.io and isinstance(args[1], Str) and args[1].s == "PageHeader") or cur(p) is None:
+            raise Unsupported("ThriftObject.from_buffer shape")
+        k, pg = cur(p)
+        eng.oblige(p, fn + ".page.header_parsed_at_page_start", "post",
+                   z3.And(C.io.pos(p) == C.OFF(k), z3.BoolVal(not events(p, "header"))), node,
+                   "one page header is parsed per iteration, at the offset where page k starts")
+        emit(p, kind="header", at=C.io.pos(p), line=node.lineno)
+        C.io.set(p, C.io.pos(p) + pg.hl)
+        return [(p, Custom(pg.ph))]
+
+    def own_page_args(p, io, ph, cmd):
+        k, pg = cur(p)
+        return z3.BoolVal(isinstance(io, Custom) and io.h is C.io and isinstance(ph, Custom) and ph.h is pg.ph and isinstance(cmd, Custom)
+                          and cmd.h is S.cmd)
+
+    def h_read_dictionary_page(eng, p, args, kw, node):
+        k, pg = cur(p)
+        eng.oblige(p, fn + ".dictionary_page.consumed_as_dictionary", "post",
+                   z3.And(own_page_args(p, args[0], args[2], args[3]), pg.type == PT["DICTIONARY_PAGE"], C.io.pos(p) == C.OFF(k) + pg.hl), node,
+                   "read_dictionary_page gets the chunk cursor right after this page's header, this page's header and the column's metadata")
+        C.io.set(p, C.io.pos(p) + pg.cps)            # contract: read_dictionary_page.page_bytes.read_at_cursor_exactly_compressed_page_size
+        d = DictVal(k, pg.dnv)                        # contract: read_dictionary_page.returns_the_decoded_values
+        emit(p, kind="dict_read", dic=d, line=node.lineno)
+        return [(p, Custom(d))]
+
+    def h_read_data_page(eng, p, args, kw, node):
+        k, pg = cur(p)
+        outs = []
+        bad = p.fork(pg.type != PT["DATA_PAGE"])
+        if eng.feasible(bad):
+            emit(bad, kind="numpy_raise", why="page header without data_page_header (INDEX_PAGE)", line=node.lineno)
+            outs.append((raise_path(bad, "AttributeError", node), NONE))
+        p.pc.append(pg.type == PT["DATA_PAGE"])
+        if not eng.feasible(p):
+            return outs
+        skip = eng.truth(args[4], p) if len(args) > 4 else eng.truth(kw.get("skip_nulls", PyB(False)), p)
+        sm = kw.get("selfmade", args[5] if len(args) > 5 else PyB(False))
+        eng.oblige(p, fn + ".data_page.callsite.page_cursor_header_metadata", "post",
+                   z3.And(own_page_args(p, args[0], args[2], args[3]), C.io.pos(p) == C.OFF(k) + pg.hl,
+                          z3.BoolVal(isinstance(args[1], Custom) and args[1].h is S.helper)), node,
+                   "read_data_page gets the chunk cursor right after this page's header, this page's header and the column's metadata")
+        eng.oblige(p, fn + ".data_page.callsite.skip_nulls_only_for_selfmade_chunk_without_nulls", "post",
+                   z3.Implies(skip, z3.And(C.selfmade, S.null_count == 0, z3.Not(S.cmd.fields["statistics"].h.none))), node,
+                   "definition levels may be skipped unread only when the file is selfmade and the chunk statistics say null_count == 0")
+        eng.oblige(p, fn + ".data_page.callsite.selfmade_passed_on", "post", eng.truth(sm, p) == C.selfmade, node)
+        C.io.set(p, C.io.pos(p) + pg.cps)            # contract: read_data_page.page_bytes.read_at_cursor_exactly_compressed_page_size
+        nn = fint("nulls_of_page")
+        lev = Root("definition_levels", pg.nv, z3.IntVal(1))
+        vals = Root("values_of_page", z3.simplify(pg.nv - nn), fint("values.itemsize"))
+        p.pc += [nn >= 0, nn <= pg.nv, z3.Implies(z3.Or(S.required, skip), nn == 0), CNT(lev.aid, S.max_def) == pg.nv - nn]
+        set_content(p, vals, ("page_values", k))
+        emit(p, kind="page_v1", k=k, nn=nn, lev=lev, vals=vals, skip=skip, line=node.lineno)
+        # contract: read_data_page.returns.* / values.returned_length_is_num_values_minus_num_nulls
+        return outs + [(p, Tup([Opt(nn == 0, Custom(Arr(lev))), NONE, Custom(Arr(vals))]))]
+
+    def h_read_data_page_v2(eng, p, args, kw, node):
+        k, pg = cur(p)
+        names = ["infile", "schema_helper", "se", "data_header2", "cmd", "dic", "assign", "num", "use_cat", "file_offset", "ph", "idx",
+                 "selfmade", "row_filter"]
+        a = dict(zip(names, args))
+        a.update(kw)
+        outs = []
+        bad = p.fork(pg.type != PT["DATA_PAGE_V2"])
+        if eng.feasible(bad):
+            raise Unsupported("read_data_page_v2 reached with another page type")
+        p.pc.append(pg.type == PT["DATA_PAGE_V2"])
+        pre = fn + ".data_page_v2.callsite."
+        eng.oblige(p, pre + "page_cursor_header_metadata", "post",
+                   z3.And(own_page_args(p, a["infile"], a["ph"], a["cmd"]), C.io.pos(p) == C.OFF(k) + pg.hl,
+                          z3.BoolVal(isinstance(unopt(a["data_header2"]), Custom) and unopt(a["data_header2"]).h is pg.daph2),
+                          z3.BoolVal(isinstance(a["schema_helper"], Custom) and a["schema_helper"].h is S.helper),
+                          z3.BoolVal(isinstance(a["se"], Custom) and a["se"].h is S.se)), node,
+                   "read_data_page_v2 gets the chunk cursor right after this page's header, this page's two headers, the column's schema element and metadata")
+        eng.oblige(p, pre + "num_is_rows_so_far", "post", eng.as_int(a["num"], p) == C.VS(k), node,
+                   "the row offset handed to the v2 reader is the number of values of the data pages before this one")
+        asg = unopt(a["assign"])
+        eng.oblige(p, pre + "output_is_whole_column", "post",
+                   z3.BoolVal(isinstance(asg, Custom) and isinstance(asg.h, Arr) and asg.h.root is C.assign and asg.h.whole), node,
+                   "the v2 reader gets the whole output array (it slices [num : num + num_values] itself)")
+        dv = a["dic"]
+        isn = dv.isnone if isinstance(dv, Opt) else z3.BoolVal(isinstance(dv, NoneV))
+        d = unopt(dv)
+        eng.oblige(p, pre + "dictionary_is_chunk_dictionary", "post",
+                   z3.Implies(in_set(pg.enc2, DICT_ENCS), z3.And(z3.Not(isn), d.h.page == 0, z3.BoolVal(d.h.converted))
+                              if isinstance(d, Custom) and isinstance(d.h, DictVal) else z3.BoolVal(False)), node,
+                   "a dictionary-encoded v2 page is dereferenced through the chunk's (converted) dictionary page")
+        eng.oblige(p, pre + "flags_passed_on", "post",
+                   z3.And(eng.truth(a["use_cat"], p) == z3.BoolVal(cat), eng.truth(a.get("selfmade", PyB(False)), p) == C.selfmade,
+                          z3.BoolVal(isinstance(a.get("row_filter", NONE), NoneV))), node)
+        size = pg.cps - pg.rl - pg.dl
+        # contract: read_data_page_v2.page_consumed_exactly (with NumpyIO.read(0) = rest of the buffer when the values section is empty)
+        pos = C.io.pos(p)
+        for cond, newpos, empty in ((size >= 1, pos + pg.cps, False), (size < 1, C.io.nbytes, True)):
+            q = p.fork(cond)
+            if eng.feasible(q):
+                C.io.set(q, newpos)
+                emit(q, kind="page_v2", k=k, num=eng.as_int(a["num"], q), empty_values=empty, line=node.lineno)
+                outs.append((q, PyI(pg.nv2)))              # contract: read_data_page_v2.returns_num_values
+        return outs
+
+    def h_pd_index(eng, p, args, kw, node):
+        a = unopt(args[0])
+        return [(p, Custom(IndexOf(a.h if isinstance(a, Custom) else a)))]
+
+    def h_iinfo(eng, p, args, kw, node):
+        return [(p, Custom(Rec("iinfo", {"max": PyI(C.iinfo_max)})))]
+
+    def h_listcomp(eng, p, e):
+        return [(p, Opaque(("listcomp", e.lineno)))]
+
+    h.update({"ThriftObject.from_buffer": h_from_buffer, "read_dictionary_page": h_read_dictionary_page, "read_data_page": h_read_data_page,
+              "read_data_page_v2": h_read_data_page_v2, "pd.Index": h_pd_index, "np.iinfo": h_iinfo, "listcomp": h_listcomp})
+
+    def invariant(eng, p, k):
+        env = p.env
+        num, pos = eng.as_int(env["num"], p), C.io.pos(p)
+        dic = env["dic"]
+        isn = dic.isnone if isinstance(dic, Opt) else z3.BoolVal(isinstance(dic, NoneV))
+        d = unopt(dic)
+        p0 = C.page(z3.IntVal(0))
+        has_dict = z3.And(k >= 1, p0.type == PT["DICTIONARY_PAGE"])
+        is_dic0 = z3.And(d.h.page == 0, z3.BoolVal(d.h.converted), d.h.n == p0.dnv) if isinstance(d, Custom) and isinstance(d.h, DictVal) \
+            else z3.BoolVal(False)
+        inv = [("cursor is at the start of page k: infile.tell() == OFF(k)", pos == C.OFF(k)),
+               ("num == number of values of the data pages before page k", num == C.VS(k)),
+               ("0 <= k <= number of pages", z3.And(0 <= k, k <= C.K)),
+               ("dic is None iff no dictionary page was read, else it is the converted dictionary of page 0",
+                z3.And(isn == z3.Not(has_dict), z3.Implies(z3.Not(isn), is_dic0)))]
+        if cat:
+            inv.append(("categories are the chunk's dictionary iff it was read, never anything else",
+                        p.ghost.get("cats_from", z3.IntVal(-1)) == z3.If(has_dict, 0, -1)))
+        return inv
+
+    def page_loop(eng, st, p):
+        C.loops += 1
+        io = p.env.get("infile")
+        if not (isinstance(io, Custom) and isinstance(io.h, IOBuf)):
+            raise Unsupported("infile is not a NumpyIO over the chunk bytes at the page loop")
+        if C.io is not None and C.io is not io.h:
+            raise Unsupported("the prologue paths reach the page loop with different chunk buffers")
+        C.io = io.h
+        C.entries.append(p.fork())
+        for name, g in invariant(eng, p, z3.IntVal(0)):
+            eng.oblige(p, f"{fn}.page_loop.invariant_on_entry[{name}]", "inv", g, st)
+        assigned = sorted({n.id for s_ in st.body for n in ast.walk(s_) if isinstance(n, ast.Name) and isinstance(n.ctx, ast.Store)})
+        C.havoced = assigned
+
+        def havoc(q):
+            k = fint("k")
+            for v in assigned:
+                old = q.env.get(v)
+                if v == "dic":
+                    q.env[v] = Opt(fbool("havoc_dic_is_None"), Custom(DictVal(fint("havoc_dic_page"), fint("havoc_dic_len"), converted=True)))
+                elif isinstance(old, PyI):
+                    q.env[v] = PyI(fint("havoc_" + v))
+                elif isinstance(old, PyB):
+                    q.env[v] = PyB(fbool("havoc_" + v))
+                elif old is not None:
+                    raise Unsupported(f"loop-carried variable {v} of type {type(old).__name__}")
+            ri = q.env.get("row_idx")
+            if isinstance(ri, Tup):
+                q.env["row_idx"] = Tup([PyI(fint("havoc_row_idx")) for _ in ri.items], True)
+            C.io.set(q, fint("havoc_cursor"))
+            q.ghost["ev"] = []
+            q.ghost["cats_from"] = fint("havoc_categories_from")
+            q.pc += [g for _, g in invariant(eng, q, k)]
+            return k
+        outs = []
+        # exit state
+        e = p.fork()
+        k = havoc(e)
+        for e2, c in eng.cond(st.test, e):
+            e2.pc += [z3.Not(c), C.mono(k, C.K), C.mono(z3.IntVal(0), k)]
+            e2.ghost["exit_k"] = k
+            if eng.feasible(e2):
+                outs.append(e2)
+        # one arbitrary page
+        b = p.fork()
+        k = havoc(b)
+        for b2, c in eng.cond(st.test, b):
+            pg, facts = C.page_facts(k)
+            b2.pc += [c] + facts + [C.mono(k + 1, C.K), C.mono(k, C.K), C.mono(z3.IntVal(0), k)]
+            b2.ghost["cur_page"] = (k, pg)
+            if not eng.feasible(b2):
+                continue
+            for r in eng.block(st.body, [b2]):
+                if r.ctl == "break":
+                    raise Unsupported("break in the page loop")
+                if r.ctl in (None, "continue"):
+                    r.ctl = None
+                    after_body(eng, r, st, k, pg)
+                else:
+                    r.ghost["in_page"] = (k, pg)
+                    outs.append(r)
+        return outs
+
+    def after_body(eng, r, st, k, pg):
+        C.body_paths.append(r)
+        for name, g in invariant(eng, r, k + 1):
+            sfx = "@v2-page-with-empty-values-section" if any(e.get("empty_values") for e in events(r, "page_v2")) else ""
+            eng.oblige(r, f"{fn}.page_loop.invariant_preserved[{name}]{sfx}", "inv", g, st)
+        evs = r.ghost.get("ev", [])
+        kinds = [e["kind"] for e in evs]
+        stores = [e for e in evs if e["kind"] == "store" and e["tgt"].root is C.assign]
+        p0 = C.page(z3.IntVal(0))
+        if "dict_read" in kinds:
+            d = next(e for e in evs if e["kind"] == "dict_read")["dic"]
+            dic = unopt(r.env.get("dic"))
+            eng.oblige(r, fn + ".dictionary_page.converted_once_and_kept", "post",
+                       z3.BoolVal(isinstance(dic, Custom) and isinstance(dic.h, DictVal) and dic.h.converted and dic.h.raw is d
+                                  and not isinstance(r.env.get("dic"), Opt)), st,
+                       "after a dictionary page `dic` is convert(<the values of that page>), converted exactly once")
+            eng.oblige(r, fn + ".dictionary_page.writes_no_rows", "post", z3.BoolVal(not stores), st)
+            if cat:
+                sc = [e for e in evs if e["kind"] == "set_categories"]
+                eng.oblige(r, fn + ".dictionary_page.categories_installed_from_it", "post",
+                           z3.BoolVal(len(sc) == 1 and isinstance(sc[0]["src"], DictVal) and sc[0]["src"].raw is d), st,
+                           "categorical read: the categories are installed once, from this (converted) dictionary")
+        if "page_v1" in kinds:
+            e1 = next(e for e in evs if e["kind"] == "page_v1")
+            nn, lev, vals = e1["nn"], e1["lev"], e1["vals"]
+            lo, hi = C.VS(k), C.VS(k) + pg.nv
+            is_dict = in_set(pg.enc, DICT_ENCS)
+            win = z3.And(*[z3.And(e["tgt"].lo_raw == lo, e["tgt"].hi_raw == hi, e["tgt"].off == lo, e["tgt"].n == pg.nv) for e in stores]) \
+                if stores else z3.BoolVal(False)
+            only = (lambda g_: z3.Implies(is_dict, g_)) if cat else (lambda g_: g_)
+            eng.oblige(r, fn + ".data_page.rows_are_next_window", "post", only(win), st,
+                       "every store of a data page goes to assign[num : num + num_values] with num = values of the pages before it "
+                       "(no gap, no overlap, order kept, inside the array)")
+            vstores = [e for e in stores if e["srclen"] is not None and e["tgt"].role == "data"]
+            nstores = [e for e in stores if e not in vstores]
+
+            def is_lev_mask(sel, op):
+                return sel[0] == "mask" and sel[1].arr.root is lev and sel[1].op == op and z3.is_true(z3.simplify(sel[1].val == S.max_def)) \
+                    and z3.is_true(z3.simplify(z3.And(sel[1].arr.off == 0, sel[1].arr.n == lev.n)))
+            if len(vstores) == 1:
+                v = vstores[0]
+                sel_ok = z3.If(nn == 0, z3.BoolVal(v["sel"] == ("all",)), z3.BoolVal(is_lev_mask(v["sel"], "==")))
+                g = z3.And(sel_ok, v["srclen"] == pg.nv - nn, z3.BoolVal(v["tgt"].view == "elem"))
+            else:
+                g = z3.BoolVal(False)
+            eng.oblige(r, fn + ".data_page.defined_positions_get_values_in_order", "post", only(g), st,
+                       "exactly one store of values per page: into the positions whose definition level is the maximum (all positions when "
+                       "the page has no null), as many values as there are such positions")
+            mask_store = any(e["tgt"].role == "mask" and e["sel"] == ("all",) and isinstance(unopt(e["src"]), Custom)
+                             and isinstance(unopt(e["src"]).h, CmpMask) and is_lev_mask(("mask", unopt(e["src"]).h), "!=") for e in nstores)
+            nan_store = [e for e in nstores if e["tgt"].role == "data" and is_lev_mask(e["sel"], "!=")]
+            g = z3.Implies(nn > 0, z3.If(C.assign.masked, z3.BoolVal(mask_store),
+                                         z3.Or(z3.And(C.assign.kind == ord("O"), z3.BoolVal(not cat)),
+                                               z3.And(z3.BoolVal(len(nan_store) == 1), *[marker_ok(e["src"], C.assign.kind, cat) for e in nan_store]))))
+            eng.oblige(r, fn + ".data_page.null_positions_get_null", "post", only(g), st,
+                       "positions whose definition level is below the maximum get the null of the output's kind (mask bit / NaN / NaT / "
+                       "pd.NA / None; -1 for category codes)")
+            src = unopt(vstores[0]["src"]) if len(vstores) == 1 else None
+            sh = src.h if isinstance(src, Custom) else None
+            page_vals = lambda a: isinstance(a, Arr) and a.root is vals and z3.is_true(z3.simplify(z3.And(a.off == 0, a.n == vals.n)))
+            if not cat:
+                through = isinstance(sh, Lookup) and isinstance(sh.table, DictVal) and page_vals(sh.idx)
+                direct = isinstance(sh, Conv) and isinstance(unopt(sh.x), Custom) and page_vals(unopt(sh.x).h)
+                eng.oblige(r, fn + ".data_page.dictionary_indices_dereferenced_through_chunk_dictionary", "post",
+                           z3.Implies(is_dict, z3.And(sh.table.page == 0, z3.BoolVal(sh.table.converted), sh.table.n == p0.dnv)
+                                      if through else z3.BoolVal(False)), st,
+                           "a dictionary-encoded page stores dic[indices of this page] with dic = the chunk's converted dictionary (page 0)")
+                eng.oblige(r, fn + ".data_page.plain_page_not_routed_through_dictionary", "post",
+                           z3.Implies(z3.Not(is_dict), z3.BoolVal(direct)), st,
+                           "a page that is not dictionary-encoded (dictionary fallback) stores convert(values of this page), not dic[...]")
+            else:
+                eng.oblige(r, fn + ".categorical.codes_only_from_dictionary_encoded_pages", "post",
+                           z3.And(is_dict, z3.BoolVal(page_vals(sh))), st,
+                           "categorical read: what is stored as category codes are the dictionary indices of a dictionary-encoded page; "
+                           "a plain (fallback) page is refused or re-coded, its raw values are never stored as codes")
+        if "page_v2" in kinds:
+            eng.oblige(r, fn + ".data_page_v2.rows_written_only_by_the_v2_reader", "post", z3.BoolVal(not stores), st)
+
+    ord_ = loop_ordinal(funcs[fn])
+    eng = PEngine(funcs=funcs, handlers=h, opaque_calls=True, loops={(fn, ord_): LoopSpec("hook", inv=page_loop)})
+    p = Path()
+    p.pc += C.pre
+    st0, _, _ = solve(list(p.pc), timeout)
+    if st0 == REFUTED:
+        ctx.vacuity["requires_sat"] += 1
+    else:
+        ctx.engine_error(tag + ": precondition unsatisfiable")
+    column = Rec("ColumnChunk", {"meta_data": Custom(S.cmd)})
+    kw = {"use_cat": PyB(cat), "selfmade": PyB(C.selfmade), "assign": Custom(Arr(C.assign)),
+          "catdef": Custom(CatDef()) if cat else NONE, "row_filter": NONE}
+    # lemma: VS is monotone (induction over the page index; used instantiated)
+    a_, b_ = z3.Int("a"), z3.Int("b")
+    pgb, factsb = C.page_facts(b_)
+    for nm, hyp, goal in (("base", [], C.VS(a_) <= C.VS(a_)),
+                          ("step", factsb + [0 <= a_, a_ <= b_, C.VS(a_) <= C.VS(b_)], C.VS(a_) <= C.VS(b_ + 1))):
+        stt, m, secs = solve(hyp + [z3.Not(goal)], timeout)
+        res.add(f"{tag}.prefix_sum.monotone.{nm}", stt, short_model(m), secs, "z3", "VS(a) <= VS(b) for a <= b: data pages hold >= 0 values")
+    try:
+        outs = eng.run(fn, p, [Custom(column), Custom(S.helper), Custom(FileObj(C))], kw)
+    except Unsupported as ex:
+        res.add(tag + ".out_of_reach", UNKNOWN, None, 0.0, "engine", str(ex))
+        return res
+    if C.loops < 1:
+        res.add(tag + ".out_of_reach", UNKNOWN, None, 0.0, "engine", "the page loop (while num < rows) was not reached")
+        return res
+    # ---- chunk bytes (prologue)
+    for q0 in C.entries:
+        fs, fr = events(q0, "fseek"), events(q0, "fread")
+        start = z3.If(z3.And(z3.Not(S.dict_none), S.dict_off > 0), S.dict_off, S.dpo)
+        ok = len(fs) == 1 and len(fr) == 1 and fs[0]["seq"] < fr[0]["seq"]
+        eng.pose(q0, fn + ".chunk.bytes_are_first_page_offset_plus_total_compressed_size",
+                 z3.And(fs[0]["off"] == start, fr[0]["n"] == S.tcs, C.io.nbytes == S.tcs, z3.BoolVal(C.io.base.region is C.region), C.io.base.a == 0)
+                 if ok else z3.BoolVal(False),
+                 "the chunk is the total_compressed_size bytes starting at the dictionary page offset if there is one, else at data_page_offset")
+    # ---- exits
+    n_exit = 0
+    for q in outs:
+        if q.ctl[0] == "ret" and "exit_k" in q.ghost:
+            n_exit += 1
+            num = eng.as_int(q.ghost["locals:" + fn]["num"], q)
+            eng.pose(q, fn + ".exit.all_values_placed_no_overrun", num == S.num_values,
+                     "the loop ends with num == ColumnMetaData.num_values: the pages tile exactly the chunk's values")
+            eng.pose(q, fn + ".exit.every_output_row_written", num == C.len_assign,
+                     "at the end every row of the output array has been written (the chunk holds as many values as the row group has rows) "
+                     "- otherwise the call must raise")
+            q2 = q.fork()
+            q2.pc.append(S.num_values == C.len_assign)
+            eng.pose(q2, fn + ".exit.every_output_row_written[chunk num_values == rows of the row group]", num == C.len_assign)
+        elif q.ctl[0] == "ret":
+            eng.pose(q, f"{fn}.returns_only_after_the_page_loop@return-L{ret_line(q)}", z3.BoolVal(False))
+        else:
+            kpg = q.ghost.get("in_page")
+            if kpg is None:
+                eng.pose(q, f"{fn}.supported_chunk_is_not_refused@L{raise_line(q)}", z3.BoolVal(False), "raise outside the page loop")
+                continue
+            k, pg = kpg
+            p0 = C.page(z3.IntVal(0))
+            unsupported = z3.Or(pg.type == PT["INDEX_PAGE"],
+                                z3.And(z3.BoolVal(cat), z3.Or(z3.Not(z3.And(C.K >= 1, p0.type == PT["DICTIONARY_PAGE"])),
+                                                              z3.And(pg.type == PT["DATA_PAGE"], z3.Not(in_set(pg.enc, DICT_ENCS))))))
+            why = events(q, "numpy_raise")
+            eng.pose(q, f"{fn}.supported_chunk_is_not_refused@L{raise_line(q)}", unsupported,
+                     "a raise inside the page loop happens only for an INDEX page or - categorical read - for a chunk that is not "
+                     "dictionary-encoded throughout" + (": " + why[0]["why"] if why else ""))
+    if not n_exit or not C.body_paths:
+        ctx.engine_error(f"{tag}: no loop exit / no body path")
+    ctx.vacuity["covers"] += n_exit + len(C.body_paths)
+    for q in [q for q in outs if q.ctl[0] == "ret" and "exit_k" in q.ghost][:1]:
+        stt, _, _ = solve(list(q.pc) + [eng.as_int(q.ghost["locals:" + fn]["num"], q) != S.num_values + 1], timeout)
+        if stt == REFUTED:
+            ctx.vacuity["must_fail_sat"] += 1
+    discharge(res, eng, timeout, rename=lambda n: n.replace(fn + ".", tag + ".", 1) if n.startswith(fn + ".") else tag + "." + n)
+    res.stats = {"loop_entries": C.loops, "paths_body": len(C.body_paths), "paths_out": len(outs), "feas": eng.n_feas}
+    return res
+
+
+# ---- read_data_page_v2 ------------------------------------------------------------------------------------------------------------
+def run_data_page_v2(ctx, funcs, timeout):
+    res = Results()
+    fn = "read_data_page_v2"
+    S = Schema(flat=True)
+    page = const_page()
+    chunk = Region("column chunk", z3.Int("chunk_len"))
+    f = IOBuf(Bts(chunk, z3.IntVal(0), chunk.n), chunk.n, name="infile")
+    entry = z3.Int("cursor_at_entry")
+    N = z3.Int("len_assign")
+    assign = Root("assign", N, z3.Int("assign.itemsize"), kind=z3.Int("assign.dtype.kind"), masked=z3.Bool("assign_is_masked_array"))
+    num, use_cat, selfmade = z3.Int("num"), z3.Bool("use_cat"), z3.Bool("selfmade")
+    dic_none, dic = z3.Bool("dic_is_None"), DictVal(z3.IntVal(0), z3.Int("len_dic"), converted=True)
+    NV, NN, DL, RL, E = page.nv2, page.nn2, page.dl, page.rl, page.enc2
+    ISC = z3.Or(page.isc_none, page.isc)
+    eff_codec = z3.If(ISC, S.codec, 0)
+    size = page.cps - RL - DL
+    cinpl = z3.Bool("converts_inplace(se)")
+
+    def on_hybrid(eng, q, ev):
+        out = ev["out"]
+        base = ev["io"].base
+        conform = z3.And(z3.BoolVal(ev["region"] is chunk), ev["start"] == entry + RL, base.n == DL, ev["width"] == WIDTH(S.max_def),
+                         out.root.n == NV, out.off == 0, out.n == NV)
+        # valid page: the header's num_nulls is the number of definition levels below the maximum
+        q.pc.append(z3.Implies(conform, CNT(out.cid(), S.max_def) == NV - NN))
+    h = base_handlers(S, hooks={"hybrid": on_hybrid})
+
+    def h_decom_into(eng, p, args, kw, node):
+        fnv, src, dst = args[0], unopt(args[1]), unopt(args[2])
+        if not (isinstance(src, Custom) and isinstance(src.h, Bts) and isinstance(dst, Custom) and isinstance(dst.h, Arr)):
+            raise Unsupported("decom_into[...] argument shapes")
+        emit(p, kind="decomp_into", src=src.h, out=dst.h, codec_is_cmd="cmd.codec" in str(fnv.tag), line=node.lineno)
+        set_content(p, dst.h.root, ("decomp_into", len(p.ghost["ev"]) - 1))
+        return [(p, NONE)]
+
+    def h_converts_inplace(eng, p, args, kw, node):
+        return [(p, PyB(cinpl))]
+    h.update({"decom_into()": h_decom_into, "converts_inplace": h_converts_inplace})
+    eng = PEngine(funcs=funcs, handlers=h, opaque_calls=True)
+    p = Path()
+    p.pc += S.pre + page.pre + width_facts(S.max_def) + [
+        page.type == PT["DATA_PAGE_V2"], entry >= 0, entry + page.cps <= chunk.n, RL == 0, RL + DL <= page.cps, page.ups >= RL + DL,
+        z3.Implies(eff_codec == 0, page.ups == page.cps), num >= 0, num + NV <= N, assign.item >= 1,
+        z3.Implies(NN > 0, S.max_def >= 1), z3.Implies(S.required, NN == 0), z3.Implies(NN > 0, DL >= 1),
+        z3.Implies(E == ENC["RLE"], S.ptype == TY["BOOLEAN"]),
+        z3.Implies(E == ENC["DELTA_BINARY_PACKED"], z3.Or(S.ptype == TY["INT32"], S.ptype == TY["INT64"])),
+        z3.Implies(in_set(E, DICT_ENCS), z3.Not(dic_none)), dic.n >= 0,
+        z3.Implies(z3.And(NN > 0, z3.Not(assign.masked)), z3.Not(in_set(assign.kind, [ord(c) for c in "iub"]))),
+        z3.Implies(use_cat, z3.And(in_set(assign.kind, [ord("i"), ord("u")]), z3.Not(assign.masked)))]
+    f.set(p, entry)
+    st, _, _ = solve(list(p.pc), timeout)
+    if st == REFUTED:
+        ctx.vacuity["requires_sat"] += 1
+    else:
+        ctx.engine_error(fn + ": precondition unsatisfiable")
+    args = [Custom(f), Custom(S.helper), Custom(S.se), Custom(page.daph2), Custom(S.cmd), Opt(dic_none, Custom(dic)), Custom(Arr(assign)),
+            PyI(num), PyB(use_cat), PyI(z3.Int("file_offset")), Custom(page.ph), Tup([PyI(z3.Int("row_idx"))], True)]
+    try:
+        rets, raises = run_paths(eng, fn, p, args, {"selfmade": PyB(selfmade), "row_filter": NONE})
+    except Unsupported as ex:
+        res.add(fn + ".out_of_reach", UNKNOWN, None, 0.0, "engine", str(ex))
+        return res
+    supported = in_set(E, SUPPORTED)
+    is_dict, is_rle, is_plain, is_delta = in_set(E, DICT_ENCS), E == ENC["RLE"], E == ENC["PLAIN"], E == ENC["DELTA_BINARY_PACKED"]
+    F = z3.BoolVal(False)
+    for q in rets:
+        evs = q.ghost.get("ev", [])
+        eng.pose(q, fn + ".unsupported_encoding_raises", supported,
+                 "a v2 page whose value encoding is outside PLAIN / dictionary / RLE / DELTA_BINARY_PACKED reaches a raise")
+        r = q.ctl[1]
+        eng.pose(q, fn + ".returns_num_values", eng.as_int(r, q) == NV if isinstance(r, (PyI, Opt)) else F,
+                 "the caller advances its row offset by what is returned: the page's num_values")
+        loc = q.ghost.get("locals:" + fn, {})
+        nv_code = loc.get("n_values")
+        eng.pose(q, fn + ".values.count_is_num_values_minus_num_nulls", eng.as_int(nv_code, q) == NV - NN if isinstance(nv_code, PyI) else F,
+                 "the number of values to decode is num_values - num_nulls of the header")
+        # ---- reads on the chunk cursor
+        reads = [e for e in evs if e["kind"] == "read" and e["io"] is f]
+        lev = [e for e in evs if e["kind"] == "hybrid" and e["region"] is chunk]
+        vread = reads[-1] if reads else None
+        eng.pose(q, fn + ".levels.def_decoded_iff_page_has_nulls",
+                 z3.And(z3.BoolVal(len(lev) <= 1), (NN > 0) == z3.BoolVal(len(lev) == 1)),
+                 "definition levels are decoded iff the header says the page has nulls (then exactly once)")
+        if lev:
+            e = lev[0]
+            b = e["io"].base
+            eng.pose(q, fn + ".levels.def_read_from_uncompressed_prefix",
+                     z3.And(b.a == entry + RL, b.n == DL, e["start"] == b.a, z3.BoolVal(e["prefix_at"] is None)),
+                     "definition levels are the definition_levels_byte_length bytes after the repetition levels, taken as stored (not "
+                     "decompressed, no length prefix)")
+            eng.pose(q, fn + ".levels.def_width_is_width_from_max_level", e["width"] == WIDTH(S.max_def))
+            eng.pose(q, fn + ".levels.def_output_holds_num_values_entries", z3.And(e["out"].root.n == NV, e["out"].off == 0, e["out"].n == NV),
+                     "the definition levels of a page are decoded into an array of exactly this page's num_values entries")
+            eng.pose(q, fn + ".levels.def_output_holds_num_values_entries[output is not a pandas nullable array]",
+                     z3.Implies(z3.Not(assign.masked), z3.And(e["out"].root.n == NV, e["out"].off == 0, e["out"].n == NV)))
+        ok_v = vread is not None
+        eng.pose(q, fn + ".values.start_at_sum_of_level_lengths", vread["pos"] == entry + RL + DL if ok_v else F,
+                 "the values section starts repetition_levels_byte_length + definition_levels_byte_length bytes after the page header")
+        eng.pose(q, fn + ".values.length_is_compressed_size_minus_levels", vread["asked"] == size if ok_v else F,
+                 "the values section is compressed_page_size minus the two level lengths bytes long")
+        eng.pose(q, fn + ".page_consumed_exactly", f.pos(q) == entry + page.cps,
+                 "on return the chunk cursor is at the next page header: header end + compressed_page_size")
+        q1 = q.fork()
+        q1.pc.append(size >= 1)
+        eng.pose(q1, fn + ".page_consumed_exactly[values section not empty]", f.pos(q) == entry + page.cps)
+        if not ok_v:
+            continue
+        V = vread["bts"]
+        decs = [e for e in evs if e["kind"] == "decompress"]
+        dinto = [e for e in evs if e["kind"] == "decomp_into"]
+        raw_store = [e for e in evs if e["kind"] == "store" and isinstance(unopt(e["src"]), Custom) and unopt(e["src"]).h is V]
+        if len(decs) == 1 and decs[0]["src"] is V and not dinto and not raw_store:
+            g = decs[0]["codec"] == eff_codec
+            g2 = decs[0]["size"] == page.ups - DL - RL
+            vreg, voff = decs[0]["region"], z3.IntVal(0)
+        elif len(dinto) == 1 and dinto[0]["src"] is V and not decs and not raw_store:
+            g = z3.And(ISC, z3.BoolVal(dinto[0]["codec_is_cmd"]))
+            g2 = z3.BoolVal(True)
+            vreg, voff = None, None
+        elif len(raw_store) == 1 and not decs and not dinto:
+            g = eff_codec == 0
+            g2 = z3.BoolVal(True)
+            vreg, voff = None, None
+        else:
+            g, g2, vreg, voff = F, F, None, None
+        eng.pose(q, fn + ".values.decompressed_iff_is_compressed_with_chunk_codec", g,
+                 "only the values section is decompressed, with ColumnMetaData.codec, iff is_compressed (absent = true); else it is used as stored")
+        eng.pose(q, fn + ".values.uncompressed_size_is_page_size_minus_levels", g2,
+                 "the values section decompresses to uncompressed_page_size minus the two level lengths")
+        # ---- decoder calls on the values section
+        def on_values(e):
+            return vreg is not None and e.get("io") is not None and e["io"].base is not None and e["io"].base.region is vreg
+        rb = [e for e in evs if e["kind"] == "read_byte" and on_values(e)]
+        vi = [e for e in evs if e["kind"] == "varint" and on_values(e)]
+        hy = [e for e in evs if e["kind"] == "hybrid" and on_values(e)]
+        dl_ = [e for e in evs if e["kind"] == "delta" and on_values(e)]
+        pl = [e for e in evs if e["kind"] == "plain"]
+        sk = [e for e in evs if e["kind"] == "seek" and on_values(e)]
+        some = NV - NN >= 1
+        for e in pl:
+            eng.pose(q, fn + ".values.plain.decodes_value_section_as_physical_type",
+                     z3.And(is_plain, z3.BoolVal(vreg is not None and e["bts"].region is vreg), e["bts"].a == 0, e["count"] == NV - NN, e["ptype"] == S.ptype),
+                     "PLAIN: num_values - num_nulls values of the column's physical type from the first byte of the (decompressed) values section")
+        fast = [e for e in evs if e["kind"] == "store" and isinstance(unopt(e["src"]), Custom) and isinstance(unopt(e["src"]).h, Bts)
+                and unopt(e["src"]).h.region is vreg]
+        for e in hy:
+            wb = z3.And(z3.BoolVal(len(rb) == 1 and not vi), *([rb[0]["pos"] == 0, e["width"] == rb[0]["value"], e["start"] == 1] if rb else []))
+            note = "dictionary indices: first byte = index bit width, the runs start at the second byte and are decoded with that width"
+            eng.pose(q, fn + ".values.dictionary.width_byte_consumed_then_runs", z3.Implies(z3.And(some, is_dict), wb), note)
+            eng.pose(q, fn + ".values.dictionary.width_byte_consumed_then_runs[not a categorical read]",
+                     z3.Implies(z3.And(some, is_dict, z3.Not(use_cat)), wb), note)
+            eng.pose(q, fn + ".values.rle_boolean.length_prefix_skipped",
+                     z3.Implies(z3.And(some, is_rle), z3.And(e["width"] == 1, e["start"] == 4, z3.BoolVal(len(sk) == 1 and not rb))),
+                     "RLE booleans: the runs start after the 4-byte length prefix, bit width 1")
+            capg = z3.And(e["out"].n == NV - NN, e["cap"] == NV - NN)
+            eng.pose(q, fn + ".values.hybrid_output_holds_non_null_values", capg,
+                     "the index / boolean runs are decoded into exactly num_values - num_nulls entries")
+        if fast and not hy:
+            eng.pose(q, fn + ".values.dictionary.width_byte_consumed_then_runs",
+                     z3.Implies(z3.And(some, is_dict), z3.And(selfmade, z3.BoolVal(len(rb) == 1 and len(vi) == 1), *([rb[0]["pos"] == 0] if rb else []))),
+                     "selfmade fast path: width byte, one bit-packed run header, then whole-byte indices (framing: C01)")
+        for e in dl_:
+            eng.pose(q, fn + ".values.delta.starts_at_value_section", z3.And(is_delta, e["start"] == 0, e["cap"] == NV - NN, e["out"].n == NV - NN))
+            g = z3.And(e["longval"] == (S.ptype == TY["INT64"]), e["out"].root.item == z3.If(S.ptype == TY["INT64"], 8, 4),
+                       z3.BoolVal(e["out"].view == "bytes"))
+            note = "DELTA_BINARY_PACKED: 8-byte stores into 8-byte items iff the column is INT64, else 4-byte stores into 4-byte items"
+            eng.pose(q, fn + ".values.delta.output_width_matches_type", g, note)
+            eng.pose(q, fn + ".values.delta.output_width_matches_type[INT32 column with a 4-byte output]",
+                     z3.Implies(z3.And(S.ptype == TY["INT32"], z3.Or(e["out"].root.item == 4, z3.BoolVal(e["out"].root is not assign))), g), note)
+        # ---- rows
+        writes = []
+        for e in evs:
+            if e["kind"] == "store" and e["tgt"].root is assign:
+                writes.append(dict(tgt=e["tgt"], sel=e["sel"], src=e["src"], srclen=e["srclen"], ev=e))
+            elif e["kind"] in ("hybrid", "delta", "decomp_into") and e["out"].root is assign and e not in lev:
+                writes.append(dict(tgt=e["out"], sel=("all",), src=("decoded", e), srclen=e["out"].n, ev=e))
+        conv = [e for e in evs if e["kind"] == "convert_inplace"]
+        wins = [w["tgt"] for w in writes] + [e["tgt"] for e in conv]
+        eng.pose(q, fn + ".rows.window_is_num_to_num_plus_num_values",
+                 z3.And(*[z3.And(t.lo_raw == num, t.hi_raw == num + NV, t.off == num, t.n == NV) for t in wins]) if wins else F,
+                 "every write of the page goes to assign[num : num + num_values]")
+        vw = [w for w in writes if w["srclen"] is not None and w["tgt"].role == "data"]
+        nw = [w for w in writes if w not in vw]
+        levarr = lev[0]["out"] if lev else None
+
+        def is_lev_mask(sel, op):
+            return levarr is not None and sel[0] == "mask" and sel[1].arr.root is levarr.root and sel[1].arr.role == levarr.role \
+                and sel[1].op == op and z3.is_true(z3.simplify(sel[1].val == S.max_def))
+        if len(vw) == 1:
+            w = vw[0]
+            g = z3.And(z3.If(NN == 0, z3.BoolVal(w["sel"] == ("all",)), z3.BoolVal(is_lev_mask(w["sel"], "=="))),
+                       z3.Or(w["srclen"] == NV - NN, z3.BoolVal(w["tgt"].view == "bytes")))
+        else:
+            g = F
+        eng.pose(q, fn + ".rows.defined_positions_get_values_in_order", g,
+                 "exactly one write of values: to the positions whose definition level is the maximum (all when the page has no null), "
+                 "num_values - num_nulls of them")
+        ne = [e for e in evs if e["kind"] == "not_equal_inplace"]
+        mask_ok = levarr is not None and len(ne) == 1 and ne[0]["arr"].root is levarr.root and ne[0]["arr"].role == levarr.role \
+            and z3.is_true(z3.simplify(ne[0]["val"] == S.max_def))
+        nan_w = [w for w in nw if w["tgt"].role == "data" and is_lev_mask(w["sel"], "!=")]
+        marker = z3.And(*[z3.If(use_cat, z3.BoolVal(isinstance(w["src"], PyI) and z3.is_true(z3.simplify(w["src"].z == -1))),
+                                z3.BoolVal(isinstance(w["src"], NoneV))) for w in nan_w])
+        eng.pose(q, fn + ".rows.null_positions_get_null",
+                 z3.Implies(NN > 0, z3.If(assign.masked, z3.BoolVal(mask_ok and levarr is not None and levarr.role == "mask"),
+                                          z3.Or(z3.And(assign.kind == ord("O"), z3.Not(use_cat)), z3.And(z3.BoolVal(len(nan_w) == 1), marker)))),
+                 "positions whose definition level is below the maximum get a null (mask bit of a nullable array / None -> NaN, NaT, None; "
+                 "-1 for category codes)")
+        src = unopt(vw[0]["src"]) if len(vw) == 1 and not isinstance(vw[0]["src"], tuple) else None
+        sh = src.h if isinstance(src, Custom) else None
+        through = isinstance(sh, Lookup) and sh.table is dic and len(hy) == 1 and isinstance(sh.idx, Arr) and sh.idx.root is hy[0]["out"].root
+        eng.pose(q, fn + ".rows.dictionary_dereferenced_unless_categorical",
+                 z3.And(z3.Implies(z3.And(is_dict, z3.Not(use_cat)), z3.BoolVal(through)),
+                        z3.Implies(z3.Not(z3.And(is_dict, z3.Not(use_cat))), z3.BoolVal(not isinstance(sh, Lookup)))),
+                 "dictionary-encoded page: dic[indices decoded from this page] is stored (indices themselves in a categorical read); any "
+                 "other encoding is never routed through the dictionary")
+    for q in raises:
+        why = events(q, "numpy_raise")
+        eng.pose(q, f"{fn}.supported_page_is_not_refused@L{raise_line(q)}", z3.Not(supported),
+                 "a valid page with a supported encoding is decoded, not refused" + (": " + why[0]["why"] if why else ""))
+    if not rets:
+        ctx.engine_error(fn + ": no returning path")
+    ctx.vacuity["covers"] += len(rets)
+    for q in rets[:1]:
+        stt, _, _ = solve(list(q.pc) + [eng.as_int(q.ctl[1], q) != NV + 1], timeout)
+        if stt == REFUTED:
+            ctx.vacuity["must_fail_sat"] += 1
+
+    def rename(nm):
+        if nm.startswith(fn + ".assert@L"):
+            return fn + ".supported_page_is_not_refused@assert-" + nm.split("@")[1]
+        return nm
+    discharge(res, eng, timeout, rename=rename)
+    res.stats = {"paths_ret": len(rets), "paths_raise": len(raises), "feas": eng.n_feas}
+    return res
+
+
+def check(ctx, timeout, parts=("dictionary_page", "data_page_v1", "data_page_v2", "read_col")):
+    funcs, tree, src = parse_module("fastparquet/core.py")
+    for fn in ("read_col", "read_data_page", "read_data_page_v2", "read_dictionary_page", "read_def", "read_rep", "read_data", "_read_page"):
+        ctx.function("core." + fn, funcs[fn].sha, funcs[fn].report)
+    out = []
+    runs = {"dictionary_page": run_dictionary_page, "data_page_v1": run_data_page_v1, "data_page_v2": run_data_page_v2,
+            "read_col": lambda c, f, t: [run_read_col(c, f, t, "values"), run_read_col(c, f, t, "categorical")]}
+    for part in parts:
+        if part not in runs:
+            continue
+        try:
+            r = runs[part](ctx, funcs, timeout)
+            out += r if isinstance(r, list) else [r]
+        except Unsupported as ex:
+            r = Results()
+            r.add(f"{part}.out_of_reach", UNKNOWN, None, 0.0, "engine", str(ex))
+            out.append(r)
+    return out
